@@ -16,6 +16,7 @@ T = {
  "C09": (MC, "4.9", "command trees with an executable command at every node x {Execute, CommandHandler, completion mode} x {command succeeds, fails} x every token sequence incl. every fault kind at every position: call log vs CLM verdict (fault => no call; clean => exactly one call, innermost command, remaining arguments, error returned unchanged)", "depth 3 (4 on small trees); declaration deviations <= 1; plus a model-independent consistency check (a parser error that is not the command's own means no call)"),
  "C10": (MC, "4.10", "every positional layout (0..3 scalars of 3 types, optional trailing slice, on parser or command) x every interleaving with options and the terminator up to the bound, against the CLM's positional queue", "depth 4 quick / 6 thorough"),
  "C11": (EX, "4.11", "every value of the 8- and 16-bit integer types in every base 2..36, limit tables for the wide types through 6 input paths, every string <= 4 over a 16-character numeric alphabet for 13 types x 4 bases, float rounding witnesses, choice near-misses; against an independent exact-arithmetic oracle (own digit parser + math/big / big.Rat) with three verdict classes", "strings <= 4; duration syntax = time.ParseDuration (trusted); grey spellings (leading +, inf/nan, hex floats, odd bool spellings) asserted for exactness only"),
+ "C14": (FE, "4.14", "every byte string up to the bound and every file of up to 4/5 lines over valid entries, headers, noise (comments, blanks, CRLF, 4095..10000-byte lines, missing final newline) and 9 fault lines, with and without IgnoreUnknown, read by the real IniParser and compared with a reference reader: never a panic, noise changes nothing, every fault reported with exactly its 1-based line (or ErrUnknownGroup), IgnoreUnknown skips only unknown sections/options", "byte strings <= 6/7 over 13 bytes; files <= 4/5 lines over 28 lines; with several faults in different sections any of them is accepted (section order is C15's subject)"),
  "C19": (EX, "4.19", "every tag string up to the bound over the scanner-relevant bytes against a reference tag grammar, plus the full product of attribute keys x awkward values x escape renderings x repetitions, marks, group/command/positional attributes, colliding name pairs over all placements, bool defaults; exported model fields must echo the attributes, malformed input must give the typed setup error, never a panic", "tag strings <= 8 quick / <= 9 thorough over 6 bytes; grey tags (odd keys) only required not to panic"),
  "C20": (EX, "4.20", "every (name set, hidden mask, word) up to the stated bound is run through the real parser and compared with textbook Levenshtein and the suggestion rule", "names of length <= 3, sets of <= 3 names, words <= 3 (quick) / <= 4 (thorough); names read back from the message by alphabet"),
 }
